@@ -23,6 +23,9 @@ abbrev TyEnv := List (String × Ty)
 def chk (r : Int) : Except Err Val :=
   if -2147483648 ≤ r ∧ r ≤ 2147483647 then .ok (.int r) else .error .overflow
 
+/-- a binary operator on two `int`s (bool operands were promoted by the caller) -/
+def binop (op : BinOp) (a b : Int) : Except Err Val := chk (op.eval a b)
+
 def conv (t : Ty) (v : Val) : Val :=
   match t with
   | .int => .int v.toInt
@@ -45,7 +48,7 @@ def eval (te : TyEnv) (s : Store) : Expr → Except Err Val
   | .int n => .ok (.int n)
   | .bool b => .ok (.bool b)
   | .var x => match s.get x with | some v => .ok v | none => .error .nameError
-  | .bin op a b => do let x ← eval te s a; let y ← eval te s b; chk (op.eval x.toInt y.toInt)
+  | .bin op a b => do let x ← eval te s a; let y ← eval te s b; binop op x.toInt y.toInt
   | .neg a => do let x ← eval te s a; chk (-x.toInt)
   | .cmp op a b => do let x ← eval te s a; let y ← eval te s b; pure (.bool (op.eval x.toInt y.toInt))
   | .and a b => do let x ← eval te s a; if x.truthy then do let y ← eval te s b; pure (.bool y.truthy) else pure (.bool false)
@@ -79,7 +82,7 @@ def exec (te : TyEnv) : Nat → Stmt → St → Except Err St
     | .aug x op e => do
       let cur ← eval te st.store (.var x)
       let v ← eval te st.store e
-      let r ← chk (op.eval cur.toInt v.toInt)
+      let r ← binop op cur.toInt v.toInt
       let s' ← assignTo te st.store x r
       pure { st with store := s' }
     | .ifs c thn els => do
